@@ -902,7 +902,7 @@ def directed_ops(E, fx, rng, limit=70):
     object is commanded at priorities 1, 16, none, 0, 17"""
     from bacpypes.constructeddata import Array
     from bacpypes.primitivedata import Unsigned
-    ops = []
+    ops, must = [], []      # `must`: the rare datatype classes, never cut by the limit
     for spec, inst in fx.all_objects():
         t, i = inst._values["objectIdentifier"]
         oid = [E.otnum[t], i]
@@ -916,20 +916,20 @@ def directed_ops(E, fx, rng, limit=70):
                                                                           {"pid": pid, "idx": 0}]}]})
             if E.sch.custom(p) == "computed":
                 # computed by the device (clock, services, COV subscriptions): never an array, never writable
-                ops.append({"op": "rp", "oid": oid, "pid": pid, "idx": 1})
-                ops.append({"op": "rp", "oid": oid, "pid": pid, "idx": None})
+                must.append({"op": "rp", "oid": oid, "pid": pid, "idx": 1})
+                must.append({"op": "rp", "oid": oid, "pid": pid, "idx": None})
                 tags = gen_tags(E, p.datatype, rng)
                 if tags is not None:
-                    ops.append({"op": "wp", "oid": oid, "pid": pid, "idx": None, "tags": tags, "prio": None,
-                                "vclass": "typed"})
+                    must.append({"op": "wp", "oid": oid, "pid": pid, "idx": None, "tags": tags, "prio": None,
+                                 "vclass": "typed"})
             k = limited_unsigned(p.datatype)
             if k is not None and p.mutable and inst._values.get(name) is not None:
                 for vclass, make in (("typed", lambda: gen_tags(E, p.datatype, rng)),
                                      ("range", lambda: over_limit_tags(E, p.datatype, None, rng))):
                     tags = make()
                     if tags is not None:
-                        ops.append({"op": "wp", "oid": oid, "pid": pid, "idx": None, "tags": tags, "prio": None,
-                                    "vclass": vclass})
+                        must.append({"op": "wp", "oid": oid, "pid": pid, "idx": None, "tags": tags, "prio": None,
+                                     "vclass": vclass})
         if getattr(type(inst), "_pv_choice", None) is not None:
             p = inst._properties["presentValue"]
             for prio in (1, 16, None, 0, 17):
@@ -944,7 +944,7 @@ def directed_ops(E, fx, rng, limit=70):
                     ops.append({"op": "wp", "oid": oid, "pid": E.pidnum["presentValue"], "idx": None, "tags": tags,
                                 "prio": prio, "vclass": "typed"})
     rng.shuffle(ops)
-    return falsy_command_ops(E, fx, rng) + ops[:limit]
+    return falsy_command_ops(E, fx, rng) + must + ops[:limit]
 
 
 def falsy_tags(dt):
@@ -1528,7 +1528,7 @@ def run_corpus(ctx):
 def run(ctx):
     run_corpus(ctx)
     if ctx.quick:
-        specs = [("q%d" % i, 3, 8, 110) for i in range(16)]
+        specs = [("q%d" % i, 2, 8, 110) for i in range(16)]
     else:
         specs = [("t%d" % i, 5, 10, 300) for i in range(48)]
     core.run_shards(ctx, "harness.c15", "shard", specs)
